@@ -28,9 +28,11 @@ def sec_to_public_pair(
             isok = isok or (sec0 in [b"\6", b"\7"])
         if isok:
             y = from_bytes_32(sec[1 + byte_count : 1 + 2 * byte_count])
-            return (x, y)
+            # a hybrid prefix (6 or 7) states the parity of y
+            if sec0 == b"\4" or (y & 1) == (sec[0] & 1):
+                return (x, y)
     elif len(sec) == 1 + byte_count:
-        if not strict or (sec0 in (b"\2", b"\3")):
+        if sec0 in (b"\2", b"\3"):
             is_y_odd = sec0 != b"\2"
             assert generator is not None
             return cast(tuple[int, int], generator.points_for_x(x)[is_y_odd])
